@@ -460,6 +460,7 @@ func (fr *Frame) enterLoop(li *loopInfo, edges []edge) (*State, string) {
 		entryPhi[p] = v
 	}
 	fr.autoInvariants(li, entryPhi)
+	fr.autoFrameInvariants(li)
 	invs := fr.invariants(li)
 	// 1. invariant holds on entry
 	for p, v := range entryPhi {
@@ -518,6 +519,34 @@ func (fr *Frame) invariants(li *loopInfo) []*Clause {
 	// global invariants are loop invariants too
 	out = append(out, fr.ginvs()...)
 	return out
+}
+
+// autoFrameInvariants: for every heap component a loop may write (other than by allocation), the
+// candidate invariant "objects that existed when the function under verification was entered are
+// unchanged outside the function's modifies clause". If the function's frame holds at all, it holds
+// at every loop head, so the candidate is checked like any invariant and lets the frame survive the
+// loop's havoc.
+func (fr *Frame) autoFrameInvariants(li *loopInfo) {
+	fx := fr.fx
+	if fx.allowed == nil || fx.entryState == nil {
+		return
+	}
+	alloc0 := fx.entryState.get(fx, "G|alloc")
+	for _, m := range fr.loopMods(li) {
+		k := m.key
+		if m.freshOnly || strings.HasPrefix(k, "G|") || strings.HasPrefix(k, "R|") {
+			continue
+		}
+		a := fx.allowed[k]
+		if a != nil && a.total {
+			continue
+		}
+		key := k
+		li.auto = append(li.auto, &Clause{Kind: "invariant", Tags: []string{"auto", "frame"}, Text: "auto frame: " + k + " unchanged for pre-existing objects", Src: fr.pos(li.header.Instrs[0].Pos()),
+			Auto: func(fr *Frame, st *State) string {
+				return fx.frameGoalQ(key, fx.allowed[key], st.get(fx, key), fx.entryState.get(fx, key), alloc0)
+			}})
+	}
 }
 
 // autoInvariants: for counting loops (phi = [v0, phi + k], k > 0) the candidate invariant phi >= v0.
